@@ -26,6 +26,10 @@ def gen_wrapper_source(o, cfg, shard, carve, twin):
     sig = inspect.signature(o.fn)
     params = []
     call = []
+    shard = dict(shard)
+    for pname, p in sig.parameters.items():
+        if pname not in shard and p.default is not inspect.Parameter.empty:
+            shard[pname] = p.default  # a parameter with a default is symbolic only if a shard says nothing else: it is fixed
     for pname, p in sig.parameters.items():
         if pname in shard:
             call.append(f"{pname}={shard[pname]!r}")
@@ -157,6 +161,11 @@ def main():
             if twin["verdict"] == "POST_FAIL":
                 mm = load_generated(src_main, tag + "_m")
                 out.update(run_crosshair(mm.obligation_, cfg["timeout"]))
+            elif twin["verdict"] in ("EXEC_ERR", "POST_ERR") and twin["cex"] is not None:
+                # the harness itself raises on a reachable input: a counterexample candidate (replayed natively by the driver)
+                out.update({"verdict": "EXEC_ERR", "message": "the harness raises: " + twin["message"][:700], "traceback": twin.get("traceback", ""),
+                            "cex": twin["cex"], "wall_s": twin["wall_s"], "paths": twin["paths"], "z3_queries": twin["z3_queries"],
+                            "z3_s": twin["z3_s"], "z3_unknown": twin["z3_unknown"]})
             else:
                 out.update({"verdict": "VACUOUS", "message": "reachability twin not refuted: " + twin["verdict"] + " " + twin["message"][:500],
                             "traceback": twin.get("traceback", ""), "cex": None, "wall_s": twin["wall_s"], "paths": twin["paths"],
